@@ -104,6 +104,8 @@ def encode (env : Env) : Nat → Ty → Val → Builder → Outcome Builder
     | .vmStack e, v => do
       let b ← b.writeUint (Prim.valLen v) 24
       encodeStack env fuel e v b
+    | .dictE _, .nil => b.writeBit false           -- hme_empty$0
+    | .dictE _, _ => .err "unmodelled"
     | .encErr _, _ => .err "marshaling not implemented"
     | .opaque _, _ => .err "unmodelled"
     | _, _ => .err "bad value"
